@@ -281,7 +281,7 @@ PROPS = {
                       "into the struct of its type). Byte-level fuzzing of blobs through encoding/json and go-crypto's armor parser is library "
                       "code and only exercised by the catalogue's garbage blobs, not fuzzed at scale.",
         "required_theorems": ["unknown_type_is_error", "missing_type_is_error", "tree_without_ops_is_error", "tree_bad_version",
-                              "invalid_is_inert", "invalid_keeps_local", "local_corrupt_is_error", "gen_no_panic_on_read_path"],
+                              "invalid_is_inert", "invalid_keeps_local", "local_corrupt_is_error", "gen_no_panic_on_read_path", "gen_no_unchecked_assert"],
         "must_hit": {"C07": ["merge[absent]=new", "merge[equal-prefix]=updated", "merge[diverged]=updated", "merge[local-ahead]=nothing", "merge[absent]=invalid", "identity[none,absent]=new", "identity[none,local-behind]=updated", "local-read=ok", "local-read=err"]},
         "slices": ["C07"],
         "rule": "a catalogue of 35 structural mutations (tree entries dropped/renamed/type-confused/extra, version and clock names, pack JSON "
